@@ -1153,11 +1153,15 @@ func rlFileCase(r *rng, c int, root string, emit func(interface{}), crash bool) 
 		case "mcp.reload_ok", "mcp.reload_fail":
 			mode = "write_and_reload"
 			args["reload_timeout"] = "300ms"
+			failStatus := pick(r, []int{503, 500, 401, 403, 404, 429, 204})
+			base["healthStatus"] = failStatus
 			hs = httptest.NewUnstartedServer(http.HandlerFunc(func(w http.ResponseWriter, req *http.Request) {
 				if variant == "mcp.reload_ok" {
 					w.WriteHeader(200)
 				} else {
-					w.WriteHeader(503)
+					// the instance did not take the candidate over: it is down, or it still runs the old configuration and
+					// answers the health probe (sent with the candidate's token) with a refusal
+					w.WriteHeader(failStatus)
 				}
 			}))
 			l, err := net.Listen("tcp", "127.0.0.1:0")
